@@ -191,6 +191,32 @@ def main():
     # residues E 109-114 of 3SGB: the program's own amide hydrogen of ILE 113 and HD21 of ASN 110 come out 1.42 A apart
     # (two hydrogens of different parents closer than the X-H bonding distance)
     cut(re_, seg(re_, (109, 110, 111, 112, 113, 114)), 'pep_close_hydrogens')
+    # tri_ASP plus a synthetic methyl phosphate (ideal geometry: P-O 1.5 A to the three terminal oxygens, 1.6 A to the ester oxygen,
+    # O-C 1.43 A) 9 A beside it: a phosphorus-containing ligand (none of the repository's test structures has one; PO4 itself is ignored)
+    src = [l for l in open(os.path.join(OUT, 'tri_ASP.pdb')).read().split('\n') if l]
+    org = (17.25, 3.5, 21.5)
+    mpo = [('P', 'P1', (0.0, 0.0, 0.0)), ('O', 'O1', (0.866, 0.866, 0.866)), ('O', 'O2', (0.866, -0.866, -0.866)), ('O', 'O3', (-0.866, 0.866, -0.866)),
+           ('O', 'O4', (-0.924, -0.924, 0.924)), ('C', 'C5', (-2.0, -1.3, 1.8))]
+    with open(os.path.join(OUT, 'complex_MPO.pdb'), 'w') as fh:
+        fh.write('\n'.join(src) + '\n')
+        for i, (el, nm, d) in enumerate(mpo):
+            fh.write('HETATM %4d  %-3s MPO A 300    %8.3f%8.3f%8.3f  1.00  0.00           %s\n' % (950 + i, nm, org[0] + d[0], org[1] + d[1], org[2] + d[2], el))
+    # tri_CYS with a mercaptoethanol adduct on CYS 67 (a mixed disulfide: SG bonded to a sulfur that is not a cysteine SG):
+    # S2 2.04 A from SG (CB-SG-S2 104 deg), then C2, C1, O1 continuing away from the peptide
+    src = [l for l in open(os.path.join(OUT, 'tri_CYS.pdb')).read().split('\n') if l]
+    atoms = [l for l in src if l.startswith('ATOM')]
+    sg = [P(l) for l in atoms if l[12:16].strip() == 'SG'][0]
+    d = (2.0 / 3, 2.0 / 3, -1.0 / 3)
+    pos, here = [], sg
+    for nm, el, step in (('S2', 'S', 2.04), ('C2', 'C', 1.82), ('C1', 'C', 1.52), ('O1', 'O', 1.43)):
+        k = len(pos)
+        dd = d if k % 2 == 0 else (2.0 / 3, -1.0 / 3, 2.0 / 3)      # zig-zag
+        here = tuple(round(here[i] + step * dd[i], 3) for i in range(3))
+        pos.append((nm, el, here))
+    with open(os.path.join(OUT, 'complex_BME.pdb'), 'w') as fh:
+        fh.write('\n'.join(src) + '\n')
+        for i, (nm, el, q) in enumerate(pos):
+            fh.write('HETATM %4d  %-3s BME A 301    %8.3f%8.3f%8.3f  1.00  0.00           %s\n' % (960 + i, nm, q[0], q[1], q[2], el))
     print(sorted(os.listdir(OUT)))
 
 
